@@ -152,35 +152,60 @@ fn c26_program(idx: usize, dsl: &str, o: &mut String) {
 fn c25_program(idx: usize, dsl: &str, o: &mut String) {
     let parts: Vec<&str> = dsl.split(';').collect();
     let vec_kind = parts[0] == "V";
-    writeln!(o, "pub fn c25_prog_{idx}(rx: RxStream, trig: RxStream, out: Out) -> DfirErased {{").unwrap();
+    let opt_kind = parts[0] == "O";
+    // a closure ending in `!` sends its output into the union that the state's pipe consumer reads (own trigger source)
+    let joined = parts.iter().skip(1).any(|c| c.ends_with('!'));
+    assert!(parts.iter().skip(1).filter(|c| c.ends_with('!')).count() <= 1, "at most one `!` closure: {dsl}");
+    writeln!(o, "pub fn c25_prog_{idx}(rx: RxStream, trig: RxStream, trig2: RxStream, out: Out) -> DfirErased {{").unwrap();
     for (k, _) in parts.iter().enumerate() {
         writeln!(o, "    #[allow(unused_variables)] let out{k} = out.clone();").unwrap();
+    }
+    if !joined {
+        writeln!(o, "    let _ = trig2;").unwrap();
     }
     writeln!(o, "    let df = dfir_rs::dfir_syntax! {{").unwrap();
     if vec_kind {
         writeln!(o, "        st = source_stream(rx) -> handoff();").unwrap();
+    } else if opt_kind {
+        writeln!(o, "        st = source_stream(rx) -> reduce::<'tick>(|a: &mut i64, x: i64| *a += x) -> optional();").unwrap();
     } else {
         let init = &parts[0][1..];
         writeln!(o, "        st = source_stream(rx) -> fold::<'tick>(|| {init}i64, |a: &mut i64, x: i64| *a += x) -> singleton();").unwrap();
     }
-    writeln!(o, "        st -> for_each(|v: i64| out0.borrow_mut().push((99usize, context.current_tick().0, v)));").unwrap();
+    if joined {
+        writeln!(o, "        cons = union() -> for_each(|v: i64| if v != i64::MIN {{ out0.borrow_mut().push((99usize, context.current_tick().0, v)) }});").unwrap();
+        writeln!(o, "        st -> [0]cons;").unwrap();
+    } else {
+        writeln!(o, "        st -> for_each(|v: i64| out0.borrow_mut().push((99usize, context.current_tick().0, v)));").unwrap();
+    }
     writeln!(o, "        trg = source_stream(trig) -> tee();").unwrap();
     for (k, c) in parts.iter().enumerate().skip(1) {
+        let (c, bang) = match c.strip_suffix('!') {
+            Some(c) => (c, true),
+            None => (*c, false),
+        };
         let (g, op) = c.split_once(':').unwrap();
         let grp = if g == "-" { String::new() } else { format!("{{{g}}} ") };
         let (kind, arg) = op.split_at(1);
-        let body = match (kind, vec_kind) {
-            ("a", false) => format!("*#{grp}mut st += {arg};"),
-            ("m", false) => format!("*#{grp}mut st *= {arg};"),
-            ("r", false) => format!("let v: i64 = *#{grp}st; out{k}.borrow_mut().push(({arg}usize, context.current_tick().0, v));"),
-            ("p", true) => format!("#{grp}mut st.push({arg}i64);"),
-            ("f", true) => format!("#{grp}mut st.retain(|y: &i64| *y % {arg} != 0);"),
-            ("r", true) => format!(
+        let body = match (kind, vec_kind, opt_kind) {
+            ("a", false, false) => format!("*#{grp}mut st += {arg};"),
+            ("m", false, false) => format!("*#{grp}mut st *= {arg};"),
+            ("r", false, false) => format!("let v: i64 = *#{grp}st; out{k}.borrow_mut().push(({arg}usize, context.current_tick().0, v));"),
+            ("a", false, true) => format!("if let Some(v) = (#{grp}mut st).as_mut() {{ *v += {arg}; }}"),
+            ("m", false, true) => format!("if let Some(v) = (#{grp}mut st).as_mut() {{ *v *= {arg}; }}"),
+            ("r", false, true) => format!("let v: i64 = (#{grp}st).unwrap_or(-1); out{k}.borrow_mut().push(({arg}usize, context.current_tick().0, v));"),
+            ("p", true, _) => format!("#{grp}mut st.push({arg}i64);"),
+            ("f", true, _) => format!("#{grp}mut st.retain(|y: &i64| *y % {arg} != 0);"),
+            ("r", true, _) => format!(
                 "let v: i64 = {{ let b = #{grp}st; (b.len() as i64) * 1000 + b.iter().sum::<i64>() }}; out{k}.borrow_mut().push(({arg}usize, context.current_tick().0, v));"
             ),
             _ => panic!("bad closure {c}"),
         };
-        writeln!(o, "        trg -> map(|x: i64| {{ {body} x }}) -> for_each(|_x: i64| {{}});").unwrap();
+        if bang {
+            writeln!(o, "        source_stream(trig2) -> map(|_x: i64| {{ {body} i64::MIN }}) -> [1]cons;").unwrap();
+        } else {
+            writeln!(o, "        trg -> map(|x: i64| {{ {body} x }}) -> for_each(|_x: i64| {{}});").unwrap();
+        }
     }
     writeln!(o, "    }};").unwrap();
     writeln!(o, "    df.into_erased()").unwrap();
@@ -229,7 +254,7 @@ fn main() {
     for (i, p) in progs.iter().enumerate() {
         c25_program(i, p, &mut o);
     }
-    writeln!(o, "pub static C25_PROGS: &[(&str, fn(RxStream, RxStream, Out) -> DfirErased)] = &[").unwrap();
+    writeln!(o, "pub static C25_PROGS: &[(&str, fn(RxStream, RxStream, RxStream, Out) -> DfirErased)] = &[").unwrap();
     for (i, p) in progs.iter().enumerate() {
         writeln!(o, "    ({p:?}, c25_prog_{i}),").unwrap();
     }
